@@ -89,6 +89,12 @@ def applyAdjusted (r : RttEstimator) (adjustedRtt : Nat) : RttEstimator :=
   { r with rttvar := weightedAverage r.rttvar rttvarSample 4,
            smoothedRtt := weightedAverage r.smoothedRtt adjustedRtt 8 }
 
+/-- the part of `update_rtt` after `ack_delay` has been clamped (`self.latest_rtt`/`self.min_rtt` already updated) -/
+def finishUpdate (r : RttEstimator) (ackDelay : Nat) (isHandshakeConfirmed : Bool) : RttEstimator :=
+  if r.minRtt + ackDelay < r.latestRtt then applyAdjusted r (r.latestRtt - ackDelay)
+  else if !isHandshakeConfirmed then r
+  else applyAdjusted r r.latestRtt
+
 /-- `RttEstimator::update_rtt(ack_delay, rtt_sample, timestamp, is_handshake_confirmed, space)` -/
 def updateRtt (r : RttEstimator) (ackDelay rttSample timestamp : Nat) (isHandshakeConfirmed : Bool)
     (space : Space) : RttEstimator :=
@@ -101,9 +107,7 @@ def updateRtt (r : RttEstimator) (ackDelay rttSample timestamp : Nat) (isHandsha
   let r := { r with latestRtt := latest, minRtt := minRtt }
   let ackDelay := if space.isInitial then ZERO_DURATION else ackDelay
   let ackDelay := if isHandshakeConfirmed then min ackDelay r.maxAckDelay else ackDelay
-  if minRtt + ackDelay < latest then applyAdjusted r (latest - ackDelay)
-  else if !isHandshakeConfirmed then r
-  else applyAdjusted r latest
+  finishUpdate r ackDelay isHandshakeConfirmed
 
 /-- `rttvar_4x`: `Duration::from_micros(4 * self.rttvar.as_micros() as u64)` -/
 def rttvar4x (r : RttEstimator) : Nat := 4 * u64 (r.rttvar / 1000) * 1000
